@@ -50,6 +50,11 @@ def check_spec(ctx, rule, inst, U, path, inline, atoms, spec_fn, keep_tags=False
     else:
         ctx.ob(rule, inst, True, "", b["span"])
     ctx.sample({"function": path, "summary": obs[:600]})
+    # number of rounding operations per case: bounds the "rounding of the amount type"
+    # (f64: relative error <= n*2^-53/(1-n*2^-53) by the standard model, barring under/overflow)
+    from . import ratfun
+    ctx.extra.setdefault("rounding_operations", {})["%s/%s [%s]" % (rule, path.split("::")[-1], inst)] = {
+        T.show_guard(g): max([ratfun.count_roundings(x) for x in ([t] if k == "val" else [])] or [0]) for g, k, t in outs}
     return outs, b
 
 
